@@ -288,3 +288,41 @@ func (c *Ctx) OnlyCalledIn(desc string, names []string, allowed ...string) bool 
 	}
 	return ok
 }
+
+// CallArgs: across the program every call of callee passes, as argument idx
+// (receiver counts), a value whose rendering is in allowed.
+func (c *Ctx) CallArgs(callee string, idx int, allowed ...string) bool {
+	rule := "call-args"
+	construct := fmt.Sprintf("%s arg%d ∈ {%s}", callee, idx, strings.Join(allowed, ", "))
+	if c.MustFn(callee) == nil {
+		return false
+	}
+	allow := map[string]bool{}
+	for _, a := range allowed {
+		allow[a] = true
+	}
+	n := 0
+	ok := true
+	for fn, ins := range c.CallersMatching(callee) {
+		for _, in := range ins {
+			n++
+			args := in.(ssa.CallInstruction).Common().Args
+			if idx >= len(args) {
+				continue
+			}
+			if t := Term(args[idx]); !allow[t] {
+				ok = false
+				c.Fail(rule, construct, InstrPos(in), fmt.Sprintf("call in %s passes %s", fn, t))
+			}
+		}
+	}
+	if n == 0 {
+		c.Undecided(rule, construct, "no call found")
+		return false
+	}
+	c.Stats["call_sites"] += n
+	if ok {
+		c.OK(rule, construct, fmt.Sprintf("%d call(s)", n))
+	}
+	return ok
+}
